@@ -216,7 +216,8 @@ def check(run, ctx):
         c = cs[0]
         a0 = c.args[0] if c.args else kwarg(c, "dir_path")
         a1 = c.args[1] if len(c.args) > 1 else kwarg(c, "recursive")
-        if isinstance(a0, ast.Name) and a0.id == "dir_path" and isinstance(a1, ast.Name) and a1.id == "recursive":
+        pars = [a.arg for a in f.node.args.args]
+        if isinstance(a0, ast.Name) and len(pars) > 2 and a0.id == pars[1] and isinstance(a1, ast.Name) and a1.id == pars[2]:
             run.ok(W4, f"{name} collector", norm(c))
         else:
             run.finding(W4, name, "collector-args", f"{norm(c)} does not forward (dir_path, recursive)", f.loc)
